@@ -12,8 +12,8 @@ Import Tiny.
 Open Scope list_scope.
 Open Scope N_scope.
 
-Definition runs := run_ops tiny tiny_el tiny_en tiny_check_fn LATEST [].
-Definition known := Known11 tiny tiny_el tiny_en tiny_check_fn LATEST [].
+Notation runs := (run_ops tiny tiny_el tiny_en tiny_check_fn LATEST []).
+Notation known := (Known11 tiny tiny_el tiny_en tiny_check_fn LATEST []).
 
 (* ---------- class (b): rewriting a referrer fails after the move has begun ----------
    /A/S is referenced by the FIBEX-ELEMENT-REF 9 inside /A/R.  Moving S (5) into ELEMENTS (15) of /P1234567/Q1234567
